@@ -18,6 +18,12 @@
 // axis only, same / other size, every variant incl. re-used outputs), run_overlap_1d / run_zoom_viewgram with degen >= 0,
 // run_ssrb_identity_like (identity-like SSRB settings one at a time), gen_degenerate_cfg (single segment / single axial position).
 //   zvg out|inpl|rel | ...                      zoom_viewgram (both overloads) / zoom_viewgrams on arc-corrected viewgrams; see run_zoom_viewgram
+// Round 4: REAL predefined scanners (run_real_scanner: true numbers of rings and ring spacings, span 1 / GE mixed span / an odd span / clipped
+// ring differences, few views and tangential positions) and generated scanners with NON-DYADIC ring spacings, 2..64 rings, every span
+// (run_ssrb_nondyadic; gen_in_cfg now draws the ring spacing too) through run_ssrb_on_geometry; new operations
+//   ssrbm rs                                    -> per output segment f:m_first f:m_last f:axial_sampling (mm; after every ssrbinfo)
+//   voxsize rs binsize fov seg0 | zz zy zx | sz sy sx -> zmin ymin xmin nz ny nx f:vz f:vy f:vx   (run_voxel_sizes: grid sizes derived from zooms)
+// and oracles: a legal SSRB(ProjDataInfo...) request is served; every input axial position has an output axial position with the same m.
 // Calls that are undefined behaviour on some revisions of the library (2-D-parameter zoom_image of an image whose first plane is not 0,
 // inverse_SSRB on incompatible data) are made in a forked child process, so that a crash is a verdict and not the end of the run.
 #include "stir_fixtures.h"
@@ -56,6 +62,7 @@
 #include <tuple>
 #include <functional>
 #include <cstring>
+#include <ctime>
 #include <unistd.h>
 #include <fcntl.h>
 #include <sys/wait.h>
@@ -280,6 +287,12 @@ run_ssrb_data(const shared_ptr<const ProjDataInfoCylindricalNoArcCorr>& in,
   const int T = sc.is_tof_ready() ? sc.get_max_num_timing_poss() : 0;
   shared_ptr<ExamInfo> ei(new ExamInfo);
   ProjDataInMemory din(ei, in), dout(ei, outinfo), dout_norm(ei, outinfo);
+  // detector pairs are histogrammed with COPIES of the two geometries: get_bin_for_det_pos_pair builds (lazily) detector tables of
+  // N/2 x N entries inside the geometry object, and every get_empty_sinogram of the library clones the geometry with these tables
+  // (a real scanner has N = 400..800: a second per few thousand sinograms)
+  const shared_ptr<ProjDataInfo> in_h_base(in->clone()), out_h_base(outinfo->clone());
+  const ProjDataInfoCylindricalNoArcCorr* const in_h = dynamic_cast<const ProjDataInfoCylindricalNoArcCorr*>(in_h_base.get());
+  const ProjDataInfoCylindricalNoArcCorr* const out_h = dynamic_cast<const ProjDataInfoCylindricalNoArcCorr*>(out_h_base.get());
   std::map<std::array<int, 3>, Sinogram<float>> sinos; // (seg, ax, tof) -> sinogram being filled
   struct Ev
   {
@@ -291,13 +304,33 @@ run_ssrb_data(const shared_ptr<const ProjDataInfoCylindricalNoArcCorr>& in,
   std::vector<Ev> evs;
   std::map<std::array<int, 3>, Sinogram<float>> sinos_u; // the same data without the affected events
   long total_in = 0;
+  const bool big_geometry = N > 40 || R > 12;
+  const int tang_reach = std::max(std::abs(in->get_min_tangential_pos_num()), std::abs(in->get_max_tangential_pos_num())) + 1;
+  const int rd_reach = std::min(R - 1, in->get_max_ring_difference(in->get_max_segment_num()) + 1);
   for (int e = 0; e < nevents; ++e)
     {
       DetectionPositionPair<> dp;
       int d1 = rng.range(0, N - 1), d2 = rng.range(0, N - 1);
       if (d1 == d2)
         d2 = (d2 + 1 + rng.range(0, N - 2)) % N;
-      const int r1 = rng.range(0, R - 1), r2 = rng.range(0, R - 1);
+      int r1 = rng.range(0, R - 1), r2 = rng.range(0, R - 1);
+      if (big_geometry)
+        {
+          // (round 4) real scanners with a reduced number of tangential positions / a clipped ring difference: aim at the ranges of the
+          // geometry (a little beyond, so that rejected pairs stay part of the stream)
+          if (rng.range(0, 7) != 0)
+            d2 = ((d1 + N / 2 + rng.range(-tang_reach, tang_reach)) % N + N) % N;
+          if (d1 == d2)
+            d2 = (d1 + N / 2) % N;
+          if (rng.range(0, 7) != 0)
+            r2 = std::min(R - 1, std::max(0, r1 + rng.range(-rd_reach, rd_reach)));
+          if (rng.range(0, 3) == 0) // the ends of the axial range: the first / last axial positions of the segments
+            {
+              const int d = r2 - r1;
+              r1 = rng.coin() ? std::max(0, -d) : R - 1 - std::max(0, d);
+              r2 = r1 + d;
+            }
+        }
       const int t = in->get_tof_mash_factor() == 0 ? 0 : rng.range(-(T / 2) - (rng.range(0, 9) == 0 ? 1 : 0), T / 2);
       const int w = rng.range(1, 3);
       dp.pos1().tangential_coord() = d1;
@@ -306,7 +339,7 @@ run_ssrb_data(const shared_ptr<const ProjDataInfoCylindricalNoArcCorr>& in,
       dp.pos2().axial_coord() = r2;
       dp.timing_pos() = t;
       Bin b;
-      const bool ok = in->get_bin_for_det_pos_pair(b, dp) == Succeeded::yes && bin_in_range(*in, b);
+      const bool ok = in_h->get_bin_for_det_pos_pair(b, dp) == Succeeded::yes && bin_in_range(*in, b);
       ++n_ops, std::fprintf(ops, "ev %d %d %d %d %d %d\n", d1, r1, d2, r2, t, w);
       if (!ok)
         {
@@ -323,7 +356,7 @@ run_ssrb_data(const shared_ptr<const ProjDataInfoCylindricalNoArcCorr>& in,
       bool affected = is_shifted_single_rd_segment(*in, b.segment_num());
       {
         Bin bo;
-        if (outinfo->get_bin_for_det_pos_pair(bo, dp) == Succeeded::yes && is_shifted_single_rd_segment(*outinfo, bo.segment_num()))
+        if (out_h->get_bin_for_det_pos_pair(bo, dp) == Succeeded::yes && is_shifted_single_rd_segment(*outinfo, bo.segment_num()))
           affected = true;
       }
       if (!affected)
@@ -337,6 +370,80 @@ run_ssrb_data(const shared_ptr<const ProjDataInfoCylindricalNoArcCorr>& in,
     }
   for (auto& kv : sinos)
     din.set_sinogram(kv.second);
+
+  // (round 4) class of the finding `ssrb:m-tolerance-below-float-precision-on-scanners-longer-than-1m`: SSRB(out, in) tests "same axial
+  // position" as fabs(out_m - in_m) < 1E-4 mm on the float get_m() = axial_pos * sampling - offset; where these products reach 1024 mm a
+  // float ulp is 1.2E-4 mm and input sinograms find no output sinogram: their counts are silently dropped (repair: build/fixes/C15-4.diff).
+  // For geometries of that class the call is first made on the side: if it LOSES counts and does nothing else wrong (every bin it
+  // fills holds what direct histogramming with the output geometry gives), the case is reported under the stable key and not compared
+  // with the model (which is exact in m); otherwise -- in particular with the repair -- it goes through the comparison and the oracles below.
+  {
+    auto reach = [](const ProjDataInfoCylindricalNoArcCorr& q) {
+      float r = 0;
+      for (int sg = q.get_min_segment_num(); sg <= q.get_max_segment_num(); ++sg)
+        r = std::max(r, q.get_num_axial_poss(sg) * q.get_axial_sampling(sg));
+      return r;
+    };
+    if (std::max(reach(*in), reach(*outinfo)) >= 1024.F)
+      {
+        // (on the data without the events of the other known class, the shifted single-ring-difference segments: SSRB is additive)
+        ProjDataInMemory probe(ei, outinfo), din_u(ei, in);
+        for (auto& kv : sinos_u)
+          din_u.set_sinogram(kv.second);
+        bool threw = false;
+        try
+          {
+            SSRB(probe, din_u, false);
+          }
+        catch (...)
+          {
+            threw = true;
+          }
+        if (!threw)
+          {
+            std::map<BinKey, long> expect;
+            for (auto& e : evs)
+              {
+                Bin b;
+                if (e.affected || out_h->get_bin_for_det_pos_pair(b, e.dp) != Succeeded::yes || !bin_in_range(*outinfo, b))
+                  continue;
+                expect[BinKey{ b.segment_num(), b.view_num(), b.axial_pos_num(), b.tangential_pos_num(), b.timing_pos_num() }] += e.w;
+              }
+            long lost = 0, kept = 0;
+            bool only_losses = true;
+            std::map<BinKey, long> got;
+            for (auto& e : nonzero_bins(probe, *outinfo))
+              got[e.first] = static_cast<long>(e.second);
+            for (auto& kv : got)
+              {
+                auto it = expect.find(kv.first);
+                if (it == expect.end() || it->second != kv.second)
+                  only_losses = false;
+                else
+                  kept += kv.second;
+              }
+            for (auto& kv : expect)
+              if (!got.count(kv.first))
+                lost += kv.second;
+            if (lost > 0 && only_losses)
+              {
+                ++oracle_checks, ++oracle_fails;
+                static bool reported = false;
+                if (!reported)
+                  std::fprintf(orc,
+                               "KNOWN-CANDIDATE ssrb:m-tolerance-below-float-precision-on-scanners-longer-than-1m SSRB(out, in) drops input "
+                               "sinograms on scanners whose axial positions reach 1024 mm (axial_pos * axial_sampling): the test "
+                               "fabs(out_m - in_m) < 1E-4 is below the precision of the float get_m() there; first case: scanner %s, %d rings, "
+                               "ring spacing %g mm, in{%s} out{%s} kSeg=%d: %ld of %ld counts lost, every bin that is filled is right "
+                               "(repair: build/fixes/C15-4.diff)\n",
+                               sc.get_name().c_str(), R, sc.get_ring_spacing(), geom_str(*in).substr(0, 200).c_str(), geom_str(*outinfo).substr(0, 200).c_str(),
+                               prm.kSeg, lost, lost + kept);
+                reported = true;
+                return;
+              }
+          }
+      }
+  }
 
   std::vector<std::pair<BinKey, float>> nz_mem[2];
   bool have_mem[2] = { false, false };
@@ -391,7 +498,7 @@ run_ssrb_data(const shared_ptr<const ProjDataInfoCylindricalNoArcCorr>& in,
       for (auto& e : evs)
         {
           Bin b;
-          if (outinfo->get_bin_for_det_pos_pair(b, e.dp) != Succeeded::yes || !bin_in_range(*outinfo, b))
+          if (out_h->get_bin_for_det_pos_pair(b, e.dp) != Succeeded::yes || !bin_in_range(*outinfo, b))
             continue;
           expect[BinKey{ b.segment_num(), b.view_num(), b.axial_pos_num(), b.tangential_pos_num(), b.timing_pos_num() }] += e.w;
           expect_total += e.w;
@@ -441,7 +548,7 @@ run_ssrb_data(const shared_ptr<const ProjDataInfoCylindricalNoArcCorr>& in,
                   continue;
                 }
               Bin b;
-              if (outinfo->get_bin_for_det_pos_pair(b, e.dp) != Succeeded::yes || !bin_in_range(*outinfo, b))
+              if (out_h->get_bin_for_det_pos_pair(b, e.dp) != Succeeded::yes || !bin_in_range(*outinfo, b))
                 continue;
               expect_u[BinKey{ b.segment_num(), b.view_num(), b.axial_pos_num(), b.tangential_pos_num(), b.timing_pos_num() }] += e.w;
             }
@@ -504,7 +611,7 @@ run_ssrb_data(const shared_ptr<const ProjDataInfoCylindricalNoArcCorr>& in,
       for (auto& e : evs)
         {
           Bin b;
-          if (outinfo->get_bin_for_det_pos_pair(b, e.dp) != Succeeded::yes || !bin_in_range(*outinfo, b))
+          if (out_h->get_bin_for_det_pos_pair(b, e.dp) != Succeeded::yes || !bin_in_range(*outinfo, b))
             continue;
           if (!got.count(BinKey{ b.segment_num(), b.view_num(), b.axial_pos_num(), b.tangential_pos_num(), b.timing_pos_num() }))
             continue; // already reported by (1)
@@ -600,6 +707,8 @@ run_ssrb_data(const shared_ptr<const ProjDataInfoCylindricalNoArcCorr>& in,
     }
 }
 
+static bool reads_missing_segment(const ProjDataInfoCylindricalNoArcCorr& in, const SsrbParams& p);
+
 static shared_ptr<ProjDataInfoCylindricalNoArcCorr>
 run_ssrb_info(const shared_ptr<const ProjDataInfoCylindricalNoArcCorr>& in, const SsrbParams& p)
 {
@@ -619,9 +728,75 @@ run_ssrb_info(const shared_ptr<const ProjDataInfoCylindricalNoArcCorr>& in, cons
   if (!outinfo)
     {
       ++n_out, std::fprintf(out, "err\n");
+      // ORACLE (round 4): a LEGAL request must be served.  Legal: odd num_segments_to_combine whose groups consist of segments the input
+      // has, a number of views to combine that leaves at least one view, fewer tangential positions trimmed than there are, a maximum
+      // segment the input has, TOF bins left alone.  (For such requests the m-range of every group is a whole number of output samples:
+      // theorem C15_ssrb_axial_count_exact; an `error` here means that the float bookkeeping of the axial positions went wrong.)
+      const int max_in = p.maxSeg >= 0 ? p.maxSeg : in->get_max_segment_num();
+      const bool legal = p.kSeg >= 1 && p.kSeg % 2 == 1 && p.kView >= 1 && p.kView <= in->get_num_views() && p.trim < in->get_num_tangential_poss()
+                         && max_in <= in->get_max_segment_num() && (max_in - p.kSeg / 2) >= 0 && !reads_missing_segment(*in, p) && p.kTof == 1
+                         && in->get_min_segment_num() == -in->get_max_segment_num();
+      ++oracle_checks;
+      if (legal)
+        oracle_fail("SSRB(ProjDataInfo, ...) refuses a legal request (ring spacing " + std::to_string(in->get_ring_spacing()) + " mm): in{"
+                    + geom_str(*in) + "} kSeg=" + std::to_string(p.kSeg) + " kView=" + std::to_string(p.kView) + " trim=" + std::to_string(p.trim)
+                    + " maxSeg=" + std::to_string(p.maxSeg) + " kTof=" + std::to_string(p.kTof));
       return outinfo;
     }
   ++n_out, std::fprintf(out, "%s\n", geom_str(*outinfo).c_str());
+  // (round 4) the axial grid of every output segment in millimetres: m of the first and of the last axial position and the axial sampling,
+  // against the model's exact value (quarter ring spacings x the exact binary32 ring spacing)
+  {
+    std::ostringstream a;
+    for (int sg = outinfo->get_min_segment_num(); sg <= outinfo->get_max_segment_num(); ++sg)
+      a << (sg == outinfo->get_min_segment_num() ? "" : " ") << F(outinfo->get_m(Bin(sg, 0, outinfo->get_min_axial_pos_num(sg), 0))) << " "
+        << F(outinfo->get_m(Bin(sg, 0, outinfo->get_max_axial_pos_num(sg), 0))) << " " << F(outinfo->get_axial_sampling(sg));
+    ++n_ops, std::fprintf(ops, "ssrbm %s\n", vh::hex(in->get_ring_spacing()).c_str());
+    ++n_out, std::fprintf(out, "%s\n", a.str().c_str());
+  }
+  // ORACLE (round 4; "total counts are conserved when no range is trimmed", "puts the counts ... into the bin that the output geometry
+  // assigns"): SSRB(out, in) moves sinograms by their m.  So every axial position of every input segment of the group of an output segment
+  // must have an output axial position with the same m, and the output grid must end where the input positions end -- otherwise
+  // sinograms are dropped (or output sinograms stay empty) whatever the data are.
+  if (p.kSeg >= 1 && p.kSeg % 2 == 1)
+    {
+      std::string bad;
+      long nbad = 0;
+      const float tol = 1e-3F;
+      for (int os = outinfo->get_min_segment_num(); os <= outinfo->get_max_segment_num(); ++os)
+        {
+          const float samp = outinfo->get_axial_sampling(os);
+          const int oa0 = outinfo->get_min_axial_pos_num(os), oa1 = outinfo->get_max_axial_pos_num(os);
+          const float m0 = outinfo->get_m(Bin(os, 0, oa0, 0)), m1 = outinfo->get_m(Bin(os, 0, oa1, 0));
+          float in_lo = 1e30F, in_hi = -1e30F;
+          for (int is = os * p.kSeg - p.kSeg / 2; is <= os * p.kSeg + p.kSeg / 2; ++is)
+            {
+              if (is < in->get_min_segment_num() || is > in->get_max_segment_num())
+                continue;
+              for (int ia = in->get_min_axial_pos_num(is); ia <= in->get_max_axial_pos_num(is); ++ia)
+                {
+                  const float m = in->get_m(Bin(is, 0, ia, 0));
+                  in_lo = std::min(in_lo, m), in_hi = std::max(in_hi, m);
+                  const int oa = oa0 + static_cast<int>(std::lround((m - m0) / samp));
+                  const bool found = oa >= oa0 && oa <= oa1 && std::fabs(outinfo->get_m(Bin(os, 0, oa, 0)) - m) < tol;
+                  if (!found && nbad++ == 0)
+                    bad = "input (segment " + std::to_string(is) + ", axial position " + std::to_string(ia) + ", m " + std::to_string(m)
+                          + ") has no axial position with that m in output segment " + std::to_string(os) + " (" + std::to_string(oa1 - oa0 + 1)
+                          + " positions, m " + std::to_string(m0) + " .. " + std::to_string(m1) + ", sampling " + std::to_string(samp) + ")";
+                }
+            }
+          if (in_lo <= in_hi && (std::fabs(in_lo - m0) > tol || std::fabs(in_hi - m1) > tol) && nbad++ == 0)
+            bad = "output segment " + std::to_string(os) + " spans m " + std::to_string(m0) + " .. " + std::to_string(m1) + " but its input segments span "
+                  + std::to_string(in_lo) + " .. " + std::to_string(in_hi);
+        }
+      ++oracle_checks;
+      if (nbad)
+        oracle_fail("SSRB(ProjDataInfo, ...) axial grid of an output segment does not match the m of its input sinograms (" + std::to_string(nbad)
+                    + " positions; their counts cannot be rebinned): " + bad + "; ring spacing " + std::to_string(in->get_ring_spacing()) + " mm ("
+                    + vh::hex(in->get_ring_spacing()) + "), " + std::to_string(in->get_scanner_ptr()->get_num_rings()) + " rings, scanner "
+                    + in->get_scanner_ptr()->get_name() + "; in{" + geom_str(*in).substr(0, 400) + "} kSeg=" + std::to_string(p.kSeg)
+                    + " maxSeg=" + std::to_string(p.maxSeg));
+    }
   // ORACLE: identity-like settings are the identity, one argument at a time: whatever the other arguments are,
   // num_segments_to_combine = 1 keeps every (processed) segment as it is, num_views_to_combine = 1 keeps the views and their angles,
   // num_tang_poss_to_trim = 0 keeps the (centred) tangential range, num_tof_bins_to_combine = 1 keeps the TOF bins
@@ -700,9 +875,9 @@ rand_value(vh::Rng& rng, bool allow_negative)
 static float
 rand_zoom(vh::Rng& rng)
 {
-  const float nice[] = { 1.F, 2.F, .5F, 1.5F, 3.F, 1.F / 3.F, .75F, 1.25F, .3F, 2.5F };
+  const float nice[] = { 1.F, 2.F, .5F, 1.5F, 3.F, 1.F / 3.F, .75F, 1.25F, .3F, 2.5F, 2.2F, .6F }; // (round 4: 2.2, 0.6)
   if (rng.range(0, 2) == 0)
-    return nice[rng.range(0, 9)];
+    return nice[rng.range(0, 11)];
   return static_cast<float>(0.3 + rng.unit() * 2.7);
 }
 
@@ -2299,6 +2474,41 @@ run_extend(vh::Rng& rng)
   for (auto it = seg.begin_all(); it != seg.end_all(); ++it)
     *it = rand_value(rng, true);
   const int ve = rng.range(0, views / 2), ae = rng.range(0, 2), te = rng.range(0, 2);
+  // (round 4) class of the finding `extend:180-degrees-asymmetric-tangential-range-zeros-in-added-views`: 180 degrees of views (added views =
+  // mirrored views), a tangential range that is not symmetric (the usual -n/2 .. n/2-1 of an even number of positions), a tangential
+  // extension: the source mirrors within the EXTENDED tangential range, whose added positions are still empty at that point, and the added
+  // views get zeros at the lowest tangential positions.  Probed with uniform data (independent of the random values): if zeros appear the
+  // case is reported under the stable key and not compared with the model (which states the documented behaviour; repair: build/fixes/C15-5).
+  {
+    const float sampling = dynamic_cast<ProjDataInfoCylindrical&>(*p).get_azimuthal_angle_sampling();
+    const float range = (views - 1) * sampling;
+    const bool flips = views >= 2 && !(std::fabs(range - 2 * _PI) < 5 * sampling) && std::fabs(range - _PI) < 5 * sampling && segnum == 0;
+    if (flips && te > 0 && ve > 0 && seg.get_min_tangential_pos_num() != -seg.get_max_tangential_pos_num())
+      {
+        SegmentBySinogram<float> ones = p->get_empty_segment_by_sinogram(segnum);
+        ones.fill(1.F);
+        const Array<3, float> e1 = extend_segment(ones, ve, ae, te);
+        long zeros = 0;
+        for (auto it = e1.begin_all(); it != e1.end_all(); ++it)
+          if (*it != 1.F)
+            ++zeros;
+        ++oracle_checks;
+        if (zeros > 0)
+          {
+            ++oracle_fails;
+            static bool reported = false;
+            if (!reported)
+              std::fprintf(orc,
+                           "KNOWN-CANDIDATE extend:180-degrees-asymmetric-tangential-range-zeros-in-added-views extend_segment of data covering 180 "
+                           "degrees with tangential positions %d..%d (not symmetric), view_extension %d, tangential_extension %d: segment filled with 1 "
+                           "comes back with %ld entries that are not 1 (zeros in the added views at the lowest tangential positions): the mirroring of "
+                           "the added views reads the not yet filled tangential extension (repair: build/fixes/C15-5.diff)\n",
+                           seg.get_min_tangential_pos_num(), seg.get_max_tangential_pos_num(), ve, te, zeros);
+            reported = true;
+            return;
+          }
+      }
+  }
   std::ostringstream o;
   o << "ext " << segnum << " " << views << " " << kn << " " << kd << " | " << seg.get_min_axial_pos_num() << " " << seg.get_min_view_num() << " "
     << seg.get_min_tangential_pos_num() << " " << seg.get_num_axial_poss() << " " << seg.get_num_views() << " " << seg.get_num_tangential_poss() << " | " << ve
@@ -2363,7 +2573,37 @@ run_extend(vh::Rng& rng)
 struct InCfg
 {
   int N, R, span, max_delta, views, ntang, T, tof_mash;
+  float rs = 0.F; // ring spacing in mm; 0: the 4 mm of vh::make_scanner
 };
+
+// ring spacings that are NOT dyadic rationals (round 4): the quotient m-range / axial sampling is then not exact in binary32, and
+// whether it comes out an ulp below the integer depends on the spacing and on the number of axial positions.  The first ones are those of
+// predefined scanners (Scanner.cxx), the others are decimals for which fl(fl(n*s)/s) < n for some small n.
+static const float nondyadic_spacings[] = { 3.1F,   3.27F, 4.85F, 6.54F, 2.208F, 4.0546F, 5.3F,  2.65F, 3.29114F, 5.56F,  5.52296F, 3.3F,
+                                            4.3F,   1.7F,  5.1F,  1.4F,  6.3F,   1.17F,   2.2F,  4.054F, 3.9655F, 2.425F, 1.1F,     7.7F };
+static const int n_nondyadic_spacings = sizeof(nondyadic_spacings) / sizeof(nondyadic_spacings[0]);
+
+static float
+rand_ring_spacing(vh::Rng& rng)
+{
+  const int k = rng.range(0, 9);
+  if (k < 6)
+    return nondyadic_spacings[rng.range(0, n_nondyadic_spacings - 1)];
+  if (k < 8) // any decimal with two digits, 1.00 .. 9.99 mm
+    return static_cast<float>(rng.range(100, 999)) / 100.F;
+  if (k == 8) // any float
+    return static_cast<float>(1.0 + rng.unit() * 8.0);
+  return 4.F;
+}
+
+static shared_ptr<Scanner>
+make_scanner_of(const InCfg& c)
+{
+  shared_ptr<Scanner> scanner = vh::make_scanner(c.N, c.R, c.T);
+  if (c.rs > 0.F)
+    scanner->set_ring_spacing(c.rs);
+  return scanner;
+}
 
 static InCfg
 gen_in_cfg(vh::Rng& rng, bool thorough)
@@ -2392,6 +2632,7 @@ gen_in_cfg(vh::Rng& rng, bool thorough)
       if (rng.range(0, 7) == 0)
         c.tof_mash = 0; // non-TOF data of a TOF scanner
     }
+  c.rs = rng.range(0, 3) == 0 ? 0.F : rand_ring_spacing(rng);
   return c;
 }
 
@@ -2469,7 +2710,7 @@ reads_missing_segment(const ProjDataInfoCylindricalNoArcCorr& in, const SsrbPara
 static void
 run_ssrb_case(const InCfg& c, vh::Rng& rng, bool thorough, int forced_kseg = 0)
 {
-  shared_ptr<Scanner> scanner = vh::make_scanner(c.N, c.R, c.T);
+  shared_ptr<Scanner> scanner = make_scanner_of(c);
   shared_ptr<ProjDataInfo> pdi0;
   try
     {
@@ -2516,7 +2757,7 @@ run_ssrb_case(const InCfg& c, vh::Rng& rng, bool thorough, int forced_kseg = 0)
 static void
 run_ssrb_identity_like(const InCfg& c, vh::Rng& rng, bool thorough)
 {
-  shared_ptr<Scanner> scanner = vh::make_scanner(c.N, c.R, c.T);
+  shared_ptr<Scanner> scanner = make_scanner_of(c);
   shared_ptr<ProjDataInfo> pdi0;
   try
     {
@@ -2611,6 +2852,305 @@ gen_degenerate_cfg(vh::Rng& rng, const int which)
   return c;
 }
 
+
+// ---------------------------------------------------------------------------------------------- round 4: real scanners, non-dyadic ring spacings
+
+// number of events for `ssrbdata` such that the MODEL (which scans all output sinograms x all input segments per input bin, like the
+// source) stays cheap; 0: geometry too large for the data comparison (geometry operations and their oracles only)
+static int
+events_for(const ProjDataInfoCylindricalNoArcCorr& in, const ProjDataInfoCylindricalNoArcCorr& o, int max_events)
+{
+  double out_sinos = 0;
+  for (int sg = o.get_min_segment_num(); sg <= o.get_max_segment_num(); ++sg)
+    out_sinos += o.get_num_axial_poss(sg);
+  out_sinos *= o.get_num_tof_poss();
+  const double cost = out_sinos * in.get_num_segments();
+  if (cost > 1.7e5)
+    return 0;
+  return static_cast<int>(std::max(6.0, std::min<double>(max_events, 1.0e6 / cost)));
+}
+
+// one input geometry: the identity request, segments combined (3, sometimes 5), a restricted maximum segment, a random legal request;
+// geometry (ssrbinfo / ssrbm / ssrbphi + oracles) always, data (ev / ssrbdata + oracles) when the geometry is small enough
+static void
+run_ssrb_on_geometry(const shared_ptr<const ProjDataInfoCylindricalNoArcCorr>& in, vh::Rng& rng, bool with_data, int max_events, bool allow_file)
+{
+  print_cfg(*in);
+  const SsrbParams id = { 1, 1, 0, -1, 1 };
+  const int maxseg = in->get_max_segment_num();
+  std::vector<SsrbParams> list;
+  list.push_back(id);
+  if (maxseg >= 1)
+    {
+      SsrbParams p = id;
+      p.kSeg = 3;
+      if (!reads_missing_segment(*in, p))
+        list.push_back(p);
+    }
+  if (maxseg >= 2 && rng.coin())
+    {
+      SsrbParams p = id;
+      p.kSeg = 5;
+      if (!reads_missing_segment(*in, p))
+        list.push_back(p);
+    }
+  if (maxseg >= 1)
+    {
+      SsrbParams p = id;
+      p.maxSeg = rng.range(0, maxseg);
+      p.kSeg = rng.coin() ? 1 : 3;
+      if (reads_missing_segment(*in, p) || p.maxSeg < p.kSeg / 2)
+        p.kSeg = 1;
+      list.push_back(p);
+    }
+  {
+    SsrbParams p = gen_params(*in, rng, false);
+    if (reads_missing_segment(*in, p))
+      p.kSeg = 1;
+    list.push_back(p);
+  }
+  const std::size_t extra_data = 2 + static_cast<std::size_t>(rng.range(0, 2));
+  for (std::size_t k = 0; k < list.size(); ++k)
+    {
+      shared_ptr<ProjDataInfoCylindricalNoArcCorr> o = run_ssrb_info(in, list[k]);
+      if (!o || o->get_num_views() == 0 || !with_data)
+        continue;
+      if (k >= 2 && k != extra_data)
+        continue; // data for the identity request, for 3 segments combined and for one of the other requests
+      const int nev = events_for(*in, *o, max_events);
+      if (nev > 0)
+        run_ssrb_data(in, o, list[k], rng, nev, k == 0 || rng.range(0, 3) == 0, allow_file && rng.range(0, 3) == 0);
+    }
+}
+
+// a REAL predefined scanner of Scanner.cxx (true number of rings and ring spacing), span 1 and a "default" span (GE: the mixed
+// ProjDataInfoGE geometry -- segment 0 with ring differences -1..1, the others with a single one; others: an odd span), all ring
+// differences, and -- to have data on the scanners with many rings -- a geometry with a clipped maximum ring difference.
+// Only the axial structure matters: few views (a divisor of N/2) and few tangential positions.
+static void
+run_real_scanner(const int type, vh::Rng& rng, const bool thorough)
+{
+  shared_ptr<Scanner> sc(new Scanner(static_cast<Scanner::Type>(type)));
+  const int N = sc->get_num_detectors_per_ring(), R = sc->get_num_rings();
+  if (sc->get_scanner_geometry() != "Cylindrical" || R < 1 || N < 4 || N % 2 != 0)
+    return;
+  std::vector<int> vcand;
+  for (int v : divisors(N / 2))
+    if (v >= 2 && v <= 14)
+      vcand.push_back(v);
+  const int views = vcand.empty() ? N / 2 : vcand[rng.range(0, (int)vcand.size() - 1)];
+  const int ntang = rng.range(3, 9);
+  const bool is_ge = sc->get_name().substr(0, 3) == "GE ";
+  int tof_mash = 0;
+  if (sc->is_tof_ready() && rng.range(0, 2) != 0)
+    {
+      const int T = sc->get_max_num_timing_poss();
+      std::vector<int> ok;
+      for (int d = 1; d <= 5; d += 2)
+        if (T % d == 0 && (T / d) % 2 == 1)
+          ok.push_back(T / d);
+      if (T % 2 == 1)
+        ok.push_back(T); // one TOF bin
+      if (!ok.empty())
+        tof_mash = ok[rng.range(0, (int)ok.size() - 1)];
+    }
+  struct Variant
+  {
+    int span; // 0: ProjDataInfoGE
+    int max_delta;
+  };
+  std::vector<Variant> vars;
+  vars.push_back({ 1, R - 1 });
+  if (R >= 2)
+    {
+      if (is_ge)
+        vars.push_back({ 0, R - 1 });
+      std::vector<int> spans;
+      for (int sp = 3; sp <= std::min(2 * R - 1, 23); sp += 2)
+        spans.push_back(sp);
+      if (!spans.empty())
+        {
+          if (thorough)
+            for (int sp : spans)
+              vars.push_back({ sp, R - 1 });
+          else
+            vars.push_back({ spans[rng.range(0, (int)spans.size() - 1)], R - 1 });
+        }
+      if (R > 30) // data on the long scanners
+        {
+          vars.push_back({ 1, rng.range(1, 3) });
+          vars.push_back({ 3, rng.range(2, 7) });
+        }
+    }
+  for (const Variant& v : vars)
+    {
+      shared_ptr<ProjDataInfo> pdi0;
+      try
+        {
+          if (v.span == 0)
+            pdi0.reset(ProjDataInfo::ProjDataInfoGE(sc, v.max_delta, views, ntang, false, tof_mash));
+          else
+            pdi0 = vh::make_pdi(sc, v.span, v.max_delta, views, ntang, false, tof_mash);
+        }
+      catch (...)
+        {
+          continue;
+        }
+      shared_ptr<const ProjDataInfoCylindricalNoArcCorr> in = dynamic_pointer_cast<ProjDataInfoCylindricalNoArcCorr>(pdi0);
+      if (!in)
+        continue;
+      run_ssrb_on_geometry(in, rng, true, thorough ? 200 : 90, false);
+    }
+}
+
+// generated scanners with a non-dyadic ring spacing, 2..64 rings, every span (odd ones, and the even ones the library accepts).
+// k cycles through the list of spacings; k % 3 == 0: span 1 with all ring differences and many rings (the segments then have
+// R, R-1, ..., 1 axial positions: every number of axial positions up to R meets this ring spacing in the identity request and, at half
+// the sampling, in the request that combines 3 segments)
+static void
+run_ssrb_nondyadic(vh::Rng& rng, const int k, const bool thorough)
+{
+  InCfg c = gen_in_cfg(rng, false);
+  c.rs = k % 5 == 4 ? rand_ring_spacing(rng) : nondyadic_spacings[(k / 3) % n_nondyadic_spacings];
+  c.N = 2 * rng.range(2, 8);
+  const std::vector<int> dv = divisors(c.N / 2);
+  c.views = c.N / 2 / dv[rng.range(0, (int)dv.size() - 1)];
+  c.ntang = std::max(1, c.N / 2 - 1);
+  switch (k % 3)
+    {
+    case 0:
+      c.R = rng.range(33, 64), c.span = 1, c.max_delta = c.R - 1;
+      break;
+    case 1:
+      c.R = rng.range(0, 3) == 0 ? 4 : rng.range(2, 12);
+      c.span = rng.range(1, 2 * c.R - 1);
+      if (c.span % 2 == 0 && rng.range(0, 3) != 0)
+        c.span += 1;
+      c.span = std::min(c.span, 2 * c.R - 1);
+      c.max_delta = rng.range(0, 3) == 0 ? rng.range(c.span / 2, c.R - 1) : c.R - 1;
+      break;
+    default:
+      c.R = rng.range(13, 64);
+      c.span = 2 * rng.range(0, std::min(c.R - 1, 12)) + 1;
+      c.max_delta = rng.range(0, 3) == 0 ? rng.range(c.span / 2, c.R - 1) : c.R - 1;
+      break;
+    }
+  shared_ptr<Scanner> scanner = make_scanner_of(c);
+  shared_ptr<ProjDataInfo> pdi0;
+  try
+    {
+      pdi0 = vh::make_pdi(scanner, c.span, c.max_delta, c.views, c.ntang, false, c.tof_mash);
+    }
+  catch (...)
+    {
+      return;
+    }
+  shared_ptr<const ProjDataInfoCylindricalNoArcCorr> in = dynamic_pointer_cast<ProjDataInfoCylindricalNoArcCorr>(pdi0);
+  if (!in)
+    return;
+  run_ssrb_on_geometry(in, rng, true, thorough ? 160 : 70, true);
+}
+
+// ---------------------------------------------------------------------------------------------- round 4: grid sizes derived from float zooms
+
+// VoxelsOnCartesianGrid(exam_info, proj_data_info, zooms, origin, sizes): the image grid derived from projection data and ZOOMS
+// (VoxelsOnCartesianGrid.cxx, construct_from_projdata_info): voxel size = (ring_spacing/2, bin size, bin size) / zooms, number of planes
+// from segment 0, and -- sizes given as -1 -- x/y size 2*ceil(FOV radius / voxel size) + 1, a float -> int conversion of a quotient that is
+// an ulp off an integer for zooms like 1/3, 0.3, 2.2 and tangential ranges that are multiples of 3, 10, 5.
+//   voxsize rs binsize fov seg0 | zz zy zx | sz sy sx      ->  zmin ymin xmin nz ny nx f:vz f:vy f:vx   or err
+static void
+run_voxel_sizes(vh::Rng& rng, const int k)
+{
+  const int N = 2 * rng.range(4, 60), R = rng.range(1, 9);
+  shared_ptr<Scanner> sc = vh::make_scanner(N, R);
+  sc->set_ring_spacing(rand_ring_spacing(rng));
+  const float bins[] = { 2.F, 2.25F, 3.195F, 2.397F, 2.13F, 1.65F, 2.005F, 1.6F, 2.206F, 4.3F, 1.17F, 2.08626F, 3.F, 1.F, 0.1F };
+  sc->set_default_bin_size(rng.range(0, 3) == 0 ? static_cast<float>(rng.range(50, 500)) / 100.F : bins[rng.range(0, 14)]);
+  const bool arc = rng.coin();
+  const int span = (R >= 2 && rng.coin()) ? 3 : 1;
+  std::vector<int> vc;
+  for (int d : divisors(N / 2))
+    if (N / 2 / d >= 2)
+      vc.push_back(N / 2 / d);
+  const int views = vc[rng.range(0, (int)vc.size() - 1)];
+  // tangential positions: often a multiple of 3 / 5 / 10 as largest position
+  int ntang = rng.range(1, N / 2 - 1);
+  if (rng.coin())
+    {
+      const int mult[] = { 3, 5, 10, 6, 15 };
+      const int m = mult[rng.range(0, 4)];
+      const int want_max = m * rng.range(1, std::max(1, (N / 2 - 1) / 2 / m));
+      if (2 * want_max + 1 <= N / 2 - 1)
+        ntang = 2 * want_max + 1;
+    }
+  shared_ptr<ProjDataInfo> pdi;
+  try
+    {
+      pdi = vh::make_pdi(sc, span, R - 1, views, ntang, arc, 0);
+    }
+  catch (...)
+    {
+      return;
+    }
+  const float nice[] = { 1.F / 3.F, .3F, 2.2F, 1.F, 2.F, .5F, 1.5F, 3.F, .6F, 1.2F, .7F, 1.1F, 2.F / 3.F, .9F, 1.3F, .1F };
+  auto rz = [&]() { return rng.range(0, 3) == 0 ? static_cast<float>(0.2 + rng.unit() * 2.8) : nice[rng.range(0, 15)]; };
+  float zxy = k % 16 < 3 ? nice[k % 16] : rz();
+  float zy = rng.range(0, 5) == 0 ? rz() : zxy;
+  const float zz = rng.range(0, 2) == 0 ? rz() : 1.F;
+  CartesianCoordinate3D<int> sizes(-1, -1, -1);
+  if (rng.range(0, 3) == 0)
+    sizes = CartesianCoordinate3D<int>(rng.coin() ? -1 : rng.range(1, 9), rng.coin() ? -1 : rng.range(1, 12), rng.coin() ? -1 : rng.range(1, 12));
+  // the FOV radius as the source finds it: largest |s| of the outermost tangential positions over the views 0 .. max_view-1
+  float fov = 0.F;
+  for (int view = 0; view < pdi->get_max_view_num(); ++view)
+    fov = std::max(fov,
+                   std::abs(std::max(pdi->get_s(Bin(0, view, 0, pdi->get_max_tangential_pos_num())),
+                                     -pdi->get_s(Bin(0, view, 0, pdi->get_min_tangential_pos_num())))));
+  // (keep the images small: at most ~250 voxels across)
+  while (2 * fov * zxy / sc->get_default_bin_size() > 250)
+    zxy *= .5F;
+  while (2 * fov * zy / sc->get_default_bin_size() > 250)
+    zy *= .5F;
+  const CartesianCoordinate3D<float> zooms(zz, zy, zxy);
+  auto cyl = dynamic_pointer_cast<ProjDataInfoCylindrical>(pdi);
+  ++n_ops, std::fprintf(ops, "voxsize %s %s %s %d,%d,%d | %s %s %s | %d %d %d\n", vh::hex(sc->get_ring_spacing()).c_str(),
+               vh::hex(sc->get_default_bin_size()).c_str(), vh::hex(fov).c_str(), cyl->get_min_ring_difference(0), cyl->get_max_ring_difference(0),
+               cyl->get_num_axial_poss(0), vh::hex(zz).c_str(), vh::hex(zy).c_str(), vh::hex(zxy).c_str(), sizes.z(), sizes.y(), sizes.x());
+  shared_ptr<ExamInfo> ei(new ExamInfo);
+  try
+    {
+      VoxelsOnCartesianGrid<float> im(ei, *pdi, zooms, CartesianCoordinate3D<float>(0.F, 0.F, 0.F), sizes);
+      const ImgGeom g = geom_of(im);
+      ++n_out, std::fprintf(out, "%d %d %d %d %d %d %s %s %s\n", g.zmin, g.ymin, g.xmin, g.nz, g.ny, g.nx, F(g.vz).c_str(), F(g.vy).c_str(), F(g.vx).c_str());
+      // ORACLE ("whenever the new grid covers the object"): with sizes left to the library the grid covers the field of view of the
+      // projection data (radius fov) and is not larger than that by more than one voxel on each side; voxel size = sampling / zoom
+      ++oracle_checks;
+      std::string bad;
+      auto check_axis = [&](const char* name, int n, float v, bool derived) {
+        if (!derived)
+          return;
+        const double half = (n - 1) / 2 * static_cast<double>(v);
+        if (half < fov * (1 - 1e-6) || half - 1.0 * v > fov * (1 + 1e-6) || n % 2 != 1)
+          bad += std::string(" ") + name + "-size " + std::to_string(n) + " voxel " + std::to_string(v);
+      };
+      check_axis("x", g.nx, g.vx, sizes.x() == -1);
+      check_axis("y", g.ny, g.vy, sizes.y() == -1);
+      if (std::fabs(g.vx * zxy - sc->get_default_bin_size()) > 1e-5 * sc->get_default_bin_size()
+          || std::fabs(g.vy * zy - sc->get_default_bin_size()) > 1e-5 * sc->get_default_bin_size()
+          || std::fabs(g.vz * zz - sc->get_ring_spacing() / 2) > 1e-5 * sc->get_ring_spacing())
+        bad += " voxel size is not sampling/zoom";
+      if (g.ymin != -(g.ny / 2) || g.xmin != -(g.nx / 2) || g.zmin != 0)
+        bad += " index ranges not centred";
+      if (!bad.empty())
+        oracle_fail("VoxelsOnCartesianGrid(proj_data_info, zooms) grid does not fit the field of view (radius " + std::to_string(fov) + " mm, zooms "
+                    + std::to_string(zz) + " " + std::to_string(zy) + " " + std::to_string(zxy) + "):" + bad);
+    }
+  catch (...)
+    {
+      ++n_out, std::fprintf(out, "err\n");
+    }
+}
+
 int
 main(int argc, char** argv)
 {
@@ -2626,7 +3166,21 @@ main(int argc, char** argv)
   scratch_dir = "/tmp/C15/harness-" + std::to_string(static_cast<long>(getpid()));
   mkdir(scratch_dir.c_str(), 0777);
   // every case is guarded: an exception escaping from the library is a verdict, and the answer stream stays aligned
+  const bool timing = std::getenv("C15_TIMING") != nullptr; // development aid: cases taking more than half a second, to stderr
   auto guarded = [&](const char* what, const std::function<void()>& f) {
+    const clock_t t0 = clock();
+    struct Report
+    {
+      bool on;
+      const char* what;
+      clock_t t0;
+      ~Report()
+      {
+        const double dt = static_cast<double>(clock() - t0) / CLOCKS_PER_SEC;
+        if (on && dt > 0.25)
+          std::fprintf(stderr, "TIMING %s %.2fs (ops so far %ld)\n", what, dt, n_ops);
+      }
+    } report{ timing, what, t0 };
     try
       {
         f();
@@ -2661,6 +3215,15 @@ main(int argc, char** argv)
       guarded("SSRB (single segment / single axial position, identity-like settings)", [&] { run_ssrb_identity_like(c, rng, thorough); });
       guarded("SSRB (single segment / single axial position)", [&] { run_ssrb_case(c, rng, thorough); });
     }
+  // (round 4) the real predefined scanners with their true ring spacings; generated scanners with non-dyadic ring spacings
+  for (int type = 0; type < static_cast<int>(Scanner::User_defined_scanner); ++type)
+    guarded("SSRB (predefined scanner)", [&] { run_real_scanner(type, rng, thorough); });
+  const int nnd = thorough ? 3 * 5 * n_nondyadic_spacings : 3 * n_nondyadic_spacings;
+  for (int k = 0; k < nnd; ++k)
+    guarded("SSRB (non-dyadic ring spacing)", [&] { run_ssrb_nondyadic(rng, k, thorough); });
+  const int nvox = thorough ? 6000 : 800;
+  for (int k = 0; k < nvox; ++k)
+    guarded("VoxelsOnCartesianGrid from projection data and zooms", [&] { run_voxel_sizes(rng, k); });
   const int n1d = thorough ? 6000 : 600;
   for (int k = 0; k < n1d / 4; ++k)
     guarded("overlap_interpolate (degenerate requests)", [&] { run_overlap_1d(rng, k); });
